@@ -447,6 +447,25 @@ def oracle(ctx, hints, effort):
             r = None
         if r:
             add(r[0], "pruning changes Tb more than the bound", {"kind": "prune", "scene": deep_, "tau": tau_}, r[1], r[2])
+    # light and dense layers alternating, so that whichever layer the threshold is reached in, the layer below it has another number of
+    # streams (the pruned system ends with the bottom boundary of the last layer kept, sized by that layer's own streams)
+    for tau_ in (6, 9, 12):
+        alt_ = dict(thickness=[3.0] * 8, density=[200.0, 450.0] * 4, temperature=[250.0, 225.0, 260.0, 235.0] * 2,
+                    microstructure="exponential", frequency=37e9, micro=dict(corr_length=[5e-5] * 8),
+                    substrate=dict(kind="flat", T=270.0, eps=[6.0, 0.5]), emmodel="iba", nmax=16)
+        try:
+            evals += 2
+            r = check_prune(alt_, tau_)
+        except AssertionError:
+            r = None
+        except Exception as e:  # noqa
+            from smrt.core.error import SMRTError
+            if isinstance(e, SMRTError):
+                r = None
+            else:
+                r = ("prune", f"{type(e).__name__}: {str(e)[:120]}", "the pruned system is solved as the full one is")
+        if r:
+            add(r[0], "pruning changes Tb more than the bound", {"kind": "prune", "scene": alt_, "tau": tau_}, r[1], r[2])
     for it in range(-2, 3 if effort == "routine" else 30):
         active = it % 3 == 2
         sc = scenes.random_scene(rng, lossless=False, microstructure="exponential", max_layers=4, atmosphere=False, active=active, thick=(0.05, 5.0))
